@@ -102,6 +102,21 @@ CHECKS = {
         "additive/dynamic/final defaults taken as assumptions listed in the evidence.",
         "3/C06",
     ),
+    "C14": (
+        "fault_enumeration",
+        "crash-point enumeration+ScriptedSimulator",
+        "exhaustive crash-point enumeration: every visit of every fault site of the recorded fault-free history x every exception kind, "
+        "followed by every later use, with invariant and differential oracles",
+        "For three programs covering all callback kinds (requirements, specifier arguments, model import, setup/compose blocks, behaviors, "
+        "sub-behaviours under do-for/until/choose and try-interrupt, monitors, guards, interrupt conditions, records, action application, "
+        "overrides) and every simulator interface call: each of the ~190 recorded visits x 4 exception kinds is a crash point; after it the "
+        "veneer globals / Scenic module table are pristine, every object property reads as before, and simulate / generate / recompile / "
+        "compile-another reproduce the pre-fault reference exactly (references cross-checked against a clean process); overrides are undone "
+        "when their scenario ends.",
+        "Trusted: the probe module and scripted simulator; the pre-fault reference run of each program. Bound: the three programs, fault "
+        "depth 1 (2 in the thorough tier).",
+        "3/C14",
+    ),
 }
 
 NOT_YET = {}
